@@ -748,6 +748,29 @@ def _deep_child(_job):
             if look(c, W) is not r or get(c, W, d) is not r:
                 bad.append([w, f"ctx[{label}] = r; ctx[{w}] (a string-valued alias declared in c16_shop.models, text "
                                f"{getattr(W, '__value__', None)!r}) gives {look(c, W)!r}, not r"])
+    # a plain class is a plain key wherever it lives: a project module called `typing` (acme.typing), a class whose own name has
+    # `typing.` or a bracket in it
+    apkg, asub = types.ModuleType("c16_acme"), types.ModuleType("c16_acme.typing")
+    apkg.__path__ = []
+    apkg.typing = asub
+    sys.modules["c16_acme"], sys.modules["c16_acme.typing"] = apkg, asub
+    exec(compile("import dataclasses, typing\n@dataclasses.dataclass\nclass Account:\n    n: int = 0\n"
+                 "NAccount = typing.NewType('NAccount', Account)\nAAccount = typing.TypeAliasType('AAccount', Account)\n",
+                 "c16_acme/typing.py", "exec"), asub.__dict__)
+    for w in ("Account", "NAccount", "AAccount"):
+        W = getattr(asub, w)
+        c = tctx.TypeContext()
+        if look(c, W) is not KeyError or get(c, W, d) is not d:
+            bad.append([w, f"absent key c16_acme.typing.{w}: subscription gives {look(c, W)!r}, get gives "
+                           f"{'the default' if get(c, W, d) is d else get(c, W, d)!r}; expected KeyError and the default"])
+        if w == "Account":          # (the reference names the KEY: the wrappers are found under the class, below)
+            c[typing.ForwardRef("Account", module="c16_acme.typing", is_class=True)] = r
+            if look(c, W) is not r or get(c, W, d) is not r:
+                bad.append([w, f"ctx[ForwardRef('Account', module='c16_acme.typing')] = r; ctx[{w}] gives {look(c, W)!r}, not r"])
+        c = tctx.TypeContext()
+        c[asub.Account] = r
+        if look(c, W) is not r:
+            bad.append([w, f"ctx[Account] = r (a class of the module c16_acme.typing); ctx[{w}] gives {look(c, W)!r}, not r"])
     c = tctx.TypeContext()
     c[typing.ForwardRef("Later", module="c16_deep", is_class=True)] = r
     before = look(c, ns["Fwd"])
